@@ -1,5 +1,6 @@
 """Statement / expression semantics of the pyvc engine (see engine.py for the data types)."""
 import ast
+import os
 import z3
 
 from . import vals as V
@@ -1389,23 +1390,24 @@ class Executor:
         if any(isinstance(a, ast.Starred) for a in e.args) or any(k.arg is None for k in e.keywords):
             return self.call_with_star(e, st)
         if self.in_spec and isinstance(f, ast.Name) and f.id == "implies" and len(e.args) == 2 and "implies" not in st.env:
-            # contract text: the consequent is only evaluated where the antecedent can hold (it may name a local that
-            # does not exist on a path where the antecedent is false)
-            out = []
-            for (s, a) in self.ev(e.args[0], st):
-                if is_exc(a):
-                    out.append((s, a))
-                    continue
-                ta = self.truth(a, s, e)
-                if not self.solver.feasible(s.pc + [ta]):
-                    out.append((s, Z(V.mk(True), "bool")))
-                    continue
-                for (s2, b) in self.ev(e.args[1], s):
-                    if is_exc(b):
-                        out.append((s2, b))
-                    else:
-                        out.append((s2, Z(V.VBool(z3.Implies(ta, self.truth(b, s2, e))), "bool")))
-            return out
+            # contract text: when the consequent cannot be evaluated (it names a local that does not exist on this path),
+            # the clause still holds if the antecedent cannot hold here; otherwise the problem is reported as before
+            try:
+                mark_o, mark_p, mark_u = len(self.obligations), len(self.pending), len(self.unsupported)
+                snap = st.fork()
+                return self._ev_call_plain(e, st)
+            except Unsupported:
+                del self.obligations[mark_o:]
+                del self.pending[mark_p:]
+                del self.unsupported[mark_u:]
+                outs = self.ev(e.args[0], snap)
+                if len(outs) == 1 and not is_exc(outs[0][1]) and not self.solver.feasible(outs[0][0].pc + [self.truth(outs[0][1], outs[0][0], e)]):
+                    return [(outs[0][0], Z(V.mk(True), "bool"))]
+                raise
+        return self._ev_call_plain(e, st)
+
+    def _ev_call_plain(self, e, st):
+        f = e.func
         out = []
         for (s, fv) in (self.ev_Attribute(f, st, for_call=True) if isinstance(f, ast.Attribute) else self.ev(f, st)):
             if is_exc(fv):
